@@ -15,7 +15,7 @@ from .campaign import run_seed
 from .campaign import skeleton_hash
 
 
-def run_chunk(pid, tier, verif_seed, start, count, per_run_timeout=120):
+def run_chunk(pid, tier, verif_seed, start, count, per_run_timeout=300):
     """Worker: runs indices [start, start+count).  Pure function of its arguments."""
     camp = campaign_mod.get(pid)
     out = {"n": 0, "counters": collections.Counter(), "keys": set(), "skeletons": set(),
